@@ -149,4 +149,105 @@ example :
     (GExpr.or (.and (.tag (.word "linux")) (.not (.tag (.word "arm")))) (.and (.tag (.rel 18)) (.tag (.word "foo")))).evalY ctxLinux = true ∧
     (GExpr.and (.tag (.word "unix")) (.and (.tag (.word "gc")) (.not (.tag (.rel 0))))).evalY ctxLinux = true := by decide
 
+/-! ### the two constraint syntaxes agree -/
+
+/-- the toolchain's reading of `// +build` lines as one `//go:build` expression (go/build/constraint
+    parsePlusBuildExpr): AND of the lines, OR of the options of a line, AND of the words of an option,
+    `!` for a negated word; a line without option is the word `ignore` (as in `lineOkY`) -/
+def litG (l : Lit) : GExpr := if l.neg then .not (.tag l.name) else .tag l.name
+def andG (e0 : GExpr) (es : List GExpr) : GExpr := es.foldl .and e0
+def orG (e0 : GExpr) (es : List GExpr) : GExpr := es.foldl .or e0
+def optG : Opt → GExpr
+  | [] => .tag (.word "ignore")          -- excluded by `WfLines`
+  | l :: ls => andG (litG l) (ls.map litG)
+def lineG : PlusLine → GExpr
+  | [] => .tag (.word "ignore")
+  | o :: os => orG (optG o) (os.map optG)
+def linesG : List PlusLine → GExpr
+  | [] => .tag (.word "ignore")          -- excluded by `WfLines`
+  | ln :: lns => andG (lineG ln) (lns.map lineG)
+/-- what the parser delivers: at least one line, and no option without a word (an option is a non-empty
+    field of the line; buildOptionOk rejects an empty word) -/
+def WfLines (lns : List PlusLine) : Bool := !lns.isEmpty && lns.all (fun ln => ln.all (fun o => !o.isEmpty))
+
+theorem andG_eval (c : Ctx) (e0 : GExpr) (es : List GExpr) :
+    (andG e0 es).evalY c = (e0.evalY c && es.all (fun e => e.evalY c)) := by
+  induction es generalizing e0 with
+  | nil => simp [andG]
+  | cons x xs ih =>
+    have h := ih (.and e0 x)
+    unfold andG at h ⊢
+    simp only [List.foldl_cons, List.all_cons]
+    rw [h]; simp [GExpr.evalY, Bool.and_assoc]
+
+theorem orG_eval (c : Ctx) (e0 : GExpr) (es : List GExpr) :
+    (orG e0 es).evalY c = (e0.evalY c || es.any (fun e => e.evalY c)) := by
+  induction es generalizing e0 with
+  | nil => simp [orG]
+  | cons x xs ih =>
+    have h := ih (.or e0 x)
+    unfold orG at h ⊢
+    simp only [List.foldl_cons, List.any_cons]
+    rw [h]; simp [GExpr.evalY, Bool.or_assoc]
+
+theorem all_map_eval {α : Type} (c : Ctx) (f : α → GExpr) (g : α → Bool) (ls : List α)
+    (h : ∀ x ∈ ls, (f x).evalY c = g x) : (ls.map f).all (fun e => e.evalY c) = ls.all g := by
+  induction ls with
+  | nil => rfl
+  | cons x xs ih =>
+    simp only [List.map_cons, List.all_cons]
+    rw [h x (by simp), ih (fun y hy => h y (by simp [hy]))]
+
+theorem any_map_eval {α : Type} (c : Ctx) (f : α → GExpr) (g : α → Bool) (ls : List α)
+    (h : ∀ x ∈ ls, (f x).evalY c = g x) : (ls.map f).any (fun e => e.evalY c) = ls.any g := by
+  induction ls with
+  | nil => rfl
+  | cons x xs ih =>
+    simp only [List.map_cons, List.any_cons]
+    rw [h x (by simp), ih (fun y hy => h y (by simp [hy]))]
+
+theorem litG_eval (c : Ctx) (l : Lit) : (litG l).evalY c = litOkY c l := by
+  unfold litG litOkY; cases l.neg <;> simp [GExpr.evalY]
+
+theorem optG_eval (c : Ctx) (o : Opt) (ho : o.isEmpty = false) : (optG o).evalY c = optOkY c o := by
+  cases o with
+  | nil => simp at ho
+  | cons l ls =>
+    simp only [optG, optOkY, andG_eval, List.all_cons, litG_eval]
+    rw [all_map_eval c litG (litOkY c) ls (fun x _ => litG_eval c x)]
+
+theorem lineG_eval (c : Ctx) (ln : PlusLine) (h : ln.all (fun o => !o.isEmpty) = true) :
+    (lineG ln).evalY c = lineOkY c ln := by
+  cases ln with
+  | nil => simp [lineG, lineOkY, GExpr.evalY]
+  | cons o os =>
+    simp only [List.all_cons, Bool.and_eq_true, Bool.not_eq_true'] at h
+    simp only [lineG, lineOkY, orG_eval, List.any_cons]
+    rw [optG_eval c o h.1,
+      any_map_eval c optG (optOkY c) os (fun x hx => optG_eval c x (by
+        have := List.all_eq_true.mp h.2 x hx; simpa using this))]
+
+/-- **A `// +build` constraint and its `//go:build` form are evaluated alike**: for every context and every
+    constraint the parser can deliver (any number of lines, options and words), yaegi's evaluation of
+    the old syntax equals its evaluation of the toolchain's conversion into the new syntax — so a file
+    carrying both forms (as gofmt writes them) cannot be selected by one and skipped by the other. -/
+theorem plusbuild_agrees_with_gobuild (c : Ctx) (lns : List PlusLine) (h : WfLines lns = true) :
+    linesOkY c lns = (linesG lns).evalY c := by
+  cases lns with
+  | nil => simp [WfLines] at h
+  | cons ln rest =>
+    simp only [WfLines, List.isEmpty_cons, Bool.not_false, Bool.true_and, List.all_cons,
+      Bool.and_eq_true] at h
+    simp only [linesG, linesOkY, andG_eval, List.all_cons]
+    rw [lineG_eval c ln h.1,
+      all_map_eval c lineG (lineOkY c) rest (fun x hx => lineG_eval c x (List.all_eq_true.mp h.2 x hx))]
+
+/-- … and both are the toolchain's answer -/
+theorem plusbuild_conversion_is_go (c : Ctx) (lns : List PlusLine) (h : WfLines lns = true) :
+    Spec.evalG c (linesG lns) = Spec.linesOk c lns := by
+  rw [← gobuild_expr_correct, ← plusbuild_agrees_with_gobuild c lns h, plusbuild_lines_correct]
+
+/-- non-vacuity: the two-line example is well-formed and both syntaxes give `true` -/
+example : WfLines exLines = true ∧ (linesG exLines).evalY ctxLinux = true ∧ linesOkY ctxLinux exLines = true := by decide
+
 end YaegiVerif.Props.C17
